@@ -216,6 +216,78 @@ MUTANTS = [
       "        d = self._actually_write() if self._write_buffer.get_queued_bytes() > 0 else defer.succeed(True)\n", None),
     M("header-write-replaced-by-fresh-success", LY, "        return self._queue_write(0, self._offset_data)",
       "        d = self._queue_write(0, self._offset_data)\n        return defer.succeed(d is not None)", "C06.8"),
+    # ---- C06.3 (gap review): every requested share number that has a bucket is aborted
+    M("abort-some-skips-present-buckets", UP,                      # sweep survivor (cmp-flip)
+      "            if sharenum in self.buckets:", "            if sharenum not in self.buckets:", "C06.3"),
+    M("abort-some-only-first-bucket", UP,
+      "                self.buckets[sharenum].abort()\n                del self.buckets[sharenum]",
+      "                self.buckets[sharenum].abort()\n                del self.buckets[sharenum]\n                return",
+      "C06.3"),
+    M("abort-some-skips-low-sharenums", UP,
+      "            if sharenum in self.buckets:", "            if sharenum and sharenum in self.buckets:", "C06.3"),
+    M("benign-abort-some-guard-inverted", UP,
+      "            if sharenum in self.buckets:\n                self.buckets[sharenum].abort()\n"
+      "                del self.buckets[sharenum]",
+      "            if sharenum not in self.buckets:\n                continue\n"
+      "            self.buckets[sharenum].abort()\n            del self.buckets[sharenum]", None),
+    M("benign-abort-some-not-in-form", UP,
+      "            if sharenum in self.buckets:", "            if not (sharenum not in self.buckets):", None),
+    # ---- C06.10 every write Deferred of a push stage is gathered
+    M("close-deferred-not-gathered", EN,                           # sweep survivor (stmt-delete)
+      "            d.addErrback(self._remove_shareholder, shareid, \"close\")\n            dl.append(d)\n",
+      "            d.addErrback(self._remove_shareholder, shareid, \"close\")\n", "C06.10"),
+    M("header-deferred-not-gathered", EN,                          # sweep survivor (stmt-delete)
+      "            d.addErrback(self._remove_shareholder, shareid, \"start\")\n            dl.append(d)\n",
+      "            d.addErrback(self._remove_shareholder, shareid, \"start\")\n", "C06.10"),
+    M("block-deferred-not-gathered", EN,                           # sweep survivor (stmt-delete)
+      "            d = self.send_block(shareid, segnum, block, lognum)\n            dl.append(d)\n",
+      "            d = self.send_block(shareid, segnum, block, lognum)\n", "C06.10"),
+    M("uri-extension-fired-and-forgotten", EN,
+      "            dl.append(self.send_uri_extension(shareid, uri_extension))",
+      "            self.send_uri_extension(shareid, uri_extension)", "C06.10"),
+    M("close-only-gathered-for-even-shares", EN,
+      "            d.addErrback(self._remove_shareholder, shareid, \"close\")\n            dl.append(d)\n",
+      "            d.addErrback(self._remove_shareholder, shareid, \"close\")\n"
+      "            if shareid % 2 == 0:\n                dl.append(d)\n", "C06.10"),
+    M("responses-list-reset-before-gather", EN,
+      "            d.addErrback(self._remove_shareholder, shareid, \"close\")\n            dl.append(d)\n"
+      "        return self._gather_responses(dl)",
+      "            d.addErrback(self._remove_shareholder, shareid, \"close\")\n            dl.append(d)\n"
+      "        dl = dl[:0]\n        return self._gather_responses(dl)", "C06.10"),
+    M("block-hash-trees-appended-to-other-list", EN,
+      "            dl.append(self.send_one_block_hash_tree(shareid, hashes))",
+      "            sent = []\n            sent.append(self.send_one_block_hash_tree(shareid, hashes))", "C06.10"),
+    M("benign-append-before-errback", EN,
+      "            d.addErrback(self._remove_shareholder, shareid, \"close\")\n            dl.append(d)\n",
+      "            dl.append(d)\n            d.addErrback(self._remove_shareholder, shareid, \"close\")\n", None),
+    M("benign-stage-list-comprehension", EN,
+      "        dl = []\n        for shareid in list(self.landlords):\n"
+      "            dl.append(self.send_uri_extension(shareid, uri_extension))\n",
+      "        dl = [self.send_uri_extension(shareid, uri_extension) for shareid in list(self.landlords)]\n", None),
+    M("benign-stage-list-renamed", EN,
+      "        dl = []\n        for shareid in list(self.landlords):\n"
+      "            dl.append(self.send_crypttext_hash_tree(shareid, all_hashes))\n"
+      "        return self._gather_responses(dl)",
+      "        responses = []\n        for shareid in list(self.landlords):\n"
+      "            responses.append(self.send_crypttext_hash_tree(shareid, all_hashes))\n"
+      "        return self._gather_responses(responses)", None),
+    M("benign-close-list-augmented", EN,
+      "            d.addErrback(self._remove_shareholder, shareid, \"close\")\n            dl.append(d)\n",
+      "            d.addErrback(self._remove_shareholder, shareid, \"close\")\n            dl += [d]\n", None),
+    M("benign-block-list-extended", EN,
+      "            d = self.send_block(shareid, segnum, block, lognum)\n            dl.append(d)\n",
+      "            d = self.send_block(shareid, segnum, block, lognum)\n            dl.extend([d])\n", None),
+    M("benign-gather-inline-list", EN,
+      "        dl = []\n        for shareid in list(self.landlords):\n"
+      "            dl.append(self.send_uri_extension(shareid, uri_extension))\n"
+      "        return self._gather_responses(dl)",
+      "        return self._gather_responses([self.send_uri_extension(shareid, uri_extension)\n"
+      "                                       for shareid in list(self.landlords)])", None),
+    M("benign-header-append-chained", EN,
+      "            d = self.landlords[shareid].put_header()\n"
+      "            d.addErrback(self._remove_shareholder, shareid, \"start\")\n            dl.append(d)\n",
+      "            dl.append(self.landlords[shareid].put_header().addErrback(self._remove_shareholder, shareid, \"start\"))\n",
+      None),
     M("vanish-proxy-close", LY, "    def close(self):", "    def finish(self):", "ANALYSIS-ERROR"),
     # ---- vanished anchor
     M("vanish-remove-shareholder", EN,
